@@ -25,7 +25,7 @@ pub fn props() -> Vec<Prop> {
             id: "C10",
             run: c10,
             tools: None,
-            rule: "for every (link position, target position) pair over 2 names up to depth 4 (quick) / 5 (thorough), target kind in {file, dir, absent, link}, and both spellings of the target (absolute, relative to the link's directory): a fresh filesystem is prepared, symlink(link, target) is called and the laws of the statement are checked through the API (readlink_abs == abs(target); clean(dir(link)/readlink) == readlink_abs and readlink relative; is_symlink && !is_file && !is_dir; is_symlink_dir/file == kind of the target at creation; entry()/follow(true) swaps path and alt exactly once; remove / chmod / chown without follow act on the link and leave the target's snapshot unchanged; readlink/readlink_abs fail on every non-link). Both backends; on Stdfs additionally std::fs::read_link resolves to the same target. distinct_nontrivial = distinct (backend, depth(link), depth(target), relation, target kind, spelling) tuples.",
+            rule: "for every (link position, target position) pair over 2 names up to depth 4 (quick) / 5 (thorough), target kind in {file, dir, absent, link-to-file, link-to-dir}, and both spellings of the target (absolute, relative to the link's directory): a fresh filesystem is prepared, symlink(link, target) is called and the laws of the statement are checked through the API (readlink_abs == abs(target); clean(dir(link)/readlink) == readlink_abs and readlink relative; is_symlink && !is_file && !is_dir; is_symlink_dir/file == kind of the target at creation; entry()/follow(true) swaps path and alt exactly once; remove / chmod / chown without follow act on the link and leave the target's snapshot unchanged; readlink/readlink_abs fail on every non-link). Both backends; on Stdfs additionally std::fs::read_link resolves to the same target. distinct_nontrivial = distinct (backend, depth(link), depth(target), relation, target kind, spelling) tuples.",
             assumptions: &["on Stdfs dangling or link targets are only judged for the creation step (C02's domain)", "readlink may be absolute only when the target is the link's own directory (C16)", "the Stdfs half runs as root (chown must be able to succeed)"],
             shards_quick: 8,
             shards_thorough: 16,
@@ -181,7 +181,13 @@ fn relation(op: &Op, pre: &NTree, post: &NTree, res: &Res, sa: &str, da: &str, w
         CopyMode::Dirs(m) => (Some(m), None),
         CopyMode::Files(m) => (None, Some(m)),
     };
+    // under follow the file or directory behind a link is copied under the TARGET's name; where that lands (and
+    // what it collides with) is not stated, so a source tree containing links is only held to the other clauses
+    let follow_with_links = follow && pre.subtree(&sroot).iter().any(|k| matches!(pre.nodes[k].kind, NKind::Link { .. }));
     for k in pre.subtree(&sroot) {
+        if follow_with_links {
+            break;
+        }
         if k == droot || is_under(&k, &droot) {
             continue; // copying into its own subtree: only the entries that existed at the start count
         }
@@ -423,6 +429,14 @@ fn c10_scenario<V: VirtualFileSystem>(v: &V, backend: &str, root: &str, l: &str,
                 return;
             }
         },
+        "linkdir" => {
+            // the target is itself a link, to a directory
+            let _ = v.mkdir_p(rl(&parent_of(t).unwrap()));
+            let _ = v.mkdir_p(rl("/zdir"));
+            if v.symlink(rl(t), rl("/zdir")).is_err() {
+                return;
+            }
+        },
         _ => {},
     }
     let targ = if spelling == "absolute" { rl(t) } else { ref_relative(&rl(t), &rl(&ld)) };
@@ -469,8 +483,10 @@ fn c10_scenario<V: VirtualFileSystem>(v: &V, backend: &str, root: &str, l: &str,
     if !v.is_symlink(rl(l)) || v.is_file(rl(l)) || v.is_dir(rl(l)) {
         bad("is_symlink&&!is_file&&!is_dir→differs", format!("is_symlink={} is_file={} is_dir={}", v.is_symlink(rl(l)), v.is_file(rl(l)), v.is_dir(rl(l))));
     }
-    let want_dir = tkind == "dir";
-    if tkind == "file" || tkind == "dir" {
+    // a target that is itself a link counts as what it points to (Entry: "symlinks that point to directories
+    // report true"); judged on Memfs, where chains are not followed by an operating system
+    let want_dir = tkind == "dir" || tkind == "linkdir";
+    if tkind == "file" || tkind == "dir" || (backend != "stdfs" && (tkind == "link" || tkind == "linkdir")) {
         if v.is_symlink_dir(rl(l)) != want_dir || v.is_symlink_file(rl(l)) == want_dir {
             bad("is_symlink_dir/file==target-kind-at-creation→differs", format!("sd={} sf={}", v.is_symlink_dir(rl(l)), v.is_symlink_file(rl(l))));
         }
@@ -552,7 +568,7 @@ fn c10(ctx: &Ctx, rep: &mut Report) {
     let mut sampled = 0;
     for l in &pos {
         for t in pos.iter().chain(["/".to_string()].iter()) {
-            for tkind in ["file", "dir", "absent", "link"] {
+            for tkind in ["file", "dir", "absent", "link", "linkdir"] {
                 for spelling in ["absolute", "relative"] {
                     idx += 1;
                     if !ctx.mine(idx) {
